@@ -76,7 +76,8 @@ class EachOf:
         self.seq = seq
 
     def sym_getattr(self, ev, name, node, mod):
-        return ev.get_attr(self.seq.elem, name, node, mod)
+        v = ev.get_attr(self.seq.elem, name, node, mod)
+        return PerElemDict(v, "each") if isinstance(v, DictV) else v
 
     def sym_iter(self, ev, n, mod):
         return ev.iterate(self.seq.elem, n, mod)
@@ -95,7 +96,65 @@ class FirstOf:
         v = ev.get_attr(self.seq.elem, name, node, mod)
         if is_sym(v):
             return linear("AT", [v, sp.Integer(self.k)], 0)
+        if isinstance(v, DictV):
+            return PerElemDict(v, ("element", self.k))
         return v        # dict of per-key vectors etc.: same key set for every element
+
+
+class PerElemDict:
+    """the dictionary held by ONE element of a summarised sequence (`volume.static_elastic_modulus` inside a loop over the volumes, or of volumes[k]).
+    The elements share their key SET (that is what the summary says), not necessarily the ORDER in which each dictionary was filled: what is read by key
+    is the same for every element, what is read by position (.values(), .keys(), .items(), iteration) comes in that element's own order"""
+
+    def __init__(self, d, who):
+        self.d, self.who = d, who
+
+    def _tag(self, t):
+        t.own_order = self.who
+        return t
+
+    def sym_getattr(self, ev, name, node, mod):
+        if name in ("values", "keys", "items", "get", "copy", "pop", "update", "setdefault"):
+            return BoundLib(f"pelem.{name}", self)
+        raise ev.err(f"attribute {name} of a per-element dictionary", node, mod)
+
+    def sym_subscript(self, ev, idx, n, mod):
+        return ev.subscript(self.d, idx, n, mod)
+
+    def sym_store(self, ev, idx, v, t, mod):
+        self.d.d[idx] = v
+
+    def sym_iter(self, ev, n, mod):
+        return list(self.d.d.keys())
+
+    def sym_contains(self, ev, item, n, mod):
+        return item in self.d.d
+
+    def sym_len(self):
+        return sp.Integer(len(self.d.d))
+
+
+def _pelem(name):
+    def f(ev, a, k, n=None, mod=None):
+        pd = a[0]
+        if name == "values":
+            return pd._tag(Tup(list(pd.d.d.values()), "list"))
+        if name == "keys":
+            t = pd._tag(Tup(list(pd.d.d.keys()), "list"))
+            t.keys_view = True
+            return t
+        if name == "items":
+            return pd._tag(Tup([Tup([kk, vv]) for kk, vv in pd.d.d.items()], "list"))
+        if name == "get":
+            if pd.d.d.membership(a[1]) is None:
+                raise AnalysisError("per-element dict.get with an undecided key")
+            return pd.d.d.get(a[1], a[2] if len(a) > 2 else None)
+        if name == "copy":
+            out = DictV()
+            out.d.update(pd.d.d)
+            return PerElemDict(out, pd.who)
+        raise AnalysisError(f"per-element dictionary method {name} is not modelled")
+    return f
 
 
 class DFV:
@@ -258,6 +317,20 @@ def lib_dataframe(ev, a, k, n, mod):
                 and all(isinstance(kk, str) for kk in data.items[0].d):
             # a list holding ONE record: a table with a single row (not one row per element of a sequence)
             return DFV(sp.Integer(1), {kk: as_sym(vv) for kk, vv in data.items[0].d.items()})
+        if isinstance(data, Tup) and getattr(data, "elementwise", False) and len(data.items) == 1 and isinstance(data.items[0], Tup) and isinstance(k.get("columns"), Tup) \
+                and all(isinstance(c_, str) for c_ in k.get("columns").items):
+            # one positional row per element + one list of labels for all of them
+            row, labels_ = data.items[0], list(k.get("columns").items)
+            if getattr(row, "own_order", None) == "each":
+                e = RaisedV("InputAssumption", ev.here(n, mod))
+                e.expected = "values placed under a label by looking them up with the key the label is made from"
+                e.detail = ("every element's values are taken in the order of that element's own dictionary (.values() / iteration) and placed under ONE list of labels: an element whose "
+                            "dictionary was filled in another order gets its values under the wrong names (dictionaries with the same keys in different orders are equal, and every other "
+                            "reader looks the components up by key)")
+                raise e
+            if len(row.items) != len(labels_):
+                raise RaisedV("ValueError")
+            return DFV(sp.Symbol("NSEQ", positive=True, integer=True), {c_: as_sym(v_) for c_, v_ in zip(labels_, row.items)})
         raise ev.err("DataFrame(data) of this shape is not modelled", n, mod)
     if isinstance(index, RangeV):
         nrows = sp.Integer(index.hi - index.lo)
@@ -551,6 +624,7 @@ def lib_iterrows(ev, a, k, n, mod):
 
 
 DF_LIB = {
+    "pelem.values": _pelem("values"), "pelem.keys": _pelem("keys"), "pelem.items": _pelem("items"), "pelem.get": _pelem("get"), "pelem.copy": _pelem("copy"),
     "DataFrame.iterrows": lib_iterrows,
     "row.items": lib_row_items, "len": lib_len_seq,
     "pandas.DataFrame": lib_dataframe, "range": lib_range_sym, "numpy.linspace": lib_linspace,
